@@ -88,7 +88,7 @@ def run(chk, replay_path):
     for _ in range(600 if chk.tier == "quick" else 6000):
         i = rng.choice(now)
         k, c, a = i.split("_")
-        n = rng.randint(0, 4) if k in ("arr", "carr", "ilist") else rng.choice([0, 1, 2, 5, 17, 60])
+        n = rng.randint(0, 4) if k in ("arr", "carr", "ilist") else rng.choice([0, 1, 2, 5, 17, 60, 60, 127, 128, 255, 256, 257, 300])
         if k == "carr":
             n = max(1, n)
         rc.append(dict(id=i, n=n, write=(c == "lv" and rng.random() < 0.5), handoff=rng.choice(["direct", "direct", "copy", "move"] + ([] if c == "crv" else ["assign"]))))
